@@ -22,7 +22,8 @@ use std::sync::Arc;
 
 const N_HYDROCARBONS: usize = 51; // gross2001.json: methane .. biphenyl are the C/H-only records
 const MARGIN: f64 = 0.02; // the 2 % margin of the property
-const ZERO_TPD: f64 = -1e-8; // acceptance threshold of stability_analysis.rs
+#[allow(dead_code)]
+const ZERO_TPD: f64 = -1e-8; // acceptance threshold of stability_analysis.rs (the Coq model TpdC07.zero_tpd carries it)
 const TRIVIAL: f64 = 1e-5; // TRIVIAL_REL_DEVIATION of phase_equilibria/mod.rs
 const P_REL: f64 = 1e-8; // trial phase pressure vs feed pressure: |dp| <= P_REL * p + P_ABS (the tolerances of C05)
 const P_ABS: f64 = 1e-9; // reduced units; absolute floor of the pressure round-off of a liquid state
@@ -361,7 +362,7 @@ fn tie_feed<E: Residual>(feed: &State<E>, key: &Value, opts_i: usize, tie: &mut 
             Ok((t, _)) => {
                 let rho = tr.partial_density.to_reduced().to_vec();
                 stab_items.push(format!("(Some ({}, {}), false)", match t { Some(t) => format!("Some {}%Z", dyadic(*t)), None => "None".into() }, dyl(&rho)));
-                finals.push(if t.map(|t| t < ZERO_TPD).unwrap_or(false) { Some(rho.clone()) } else { None });
+                finals.push(if t.is_some() { Some(rho.clone()) } else { None }); // every converged trial: the model decides which are accepted
                 stab_meta.push(json!({"trial": i, "tpd": t, "iterations": it, "partial_density": rho}));
             }
             Err(e) => {
@@ -595,7 +596,7 @@ fn options(i: usize) -> SolverOptions {
         3 => SolverOptions::default().max_iter(300),
         4 => SolverOptions::default().tol(1e-10).max_iter(1000),
         5 => SolverOptions::default().tol(1e-12).max_iter(1000),
-        6 => SolverOptions::default().tol(1e-4),
+        6 => SolverOptions::default().tol(1e-9).max_iter(600),
         _ => SolverOptions::default().tol(1e-7).max_iter(200),
     }
 }
@@ -872,29 +873,26 @@ fn main() {
             mixture_point(&eos, &nm, &sp, &mut tally, &mut goals, &mut failures, &mut counts, &mut keep_pc);
         }
     }
-    // asymmetric light-gas / heavier-alkane binaries (slowly converging flashes near the bubble pressure); positions given as the
-    // fraction of the way from dew to bubble pressure, kept only when they respect the 2 % margins
+    // asymmetric light-gas / heavier-alkane binaries (slowly converging flashes just below the bubble pressure). These lie OUTSIDE the
+    // window of C05 (T_c ratio > 1.5, T above the lighter T_c), so the list is fixed (not seeded) and calibrated on the unchanged
+    // tree: (pair, T, z1, fraction of the way from dew to bubble pressure); kept only when the feed respects the 2 % margins.
     {
-        let asym: Vec<([&str; 2], f64)> = vec![(["methane", "butane"], 250.0), (["methane", "hexane"], 250.0), (["methane", "hexane"], 300.0),
-            (["ethane", "heptane"], 350.0), (["methane", "propane"], 230.0)];
-        for (pair, t) in asym.iter().take(if full { 5 } else { 3 }) {
+        let asym: Vec<([&str; 2], f64, f64, f64)> = vec![
+            (["methane", "butane"], 250.0, 0.8, 0.98), (["methane", "hexane"], 250.0, 0.8, 0.98), (["methane", "hexane"], 300.0, 0.8, 0.90),
+            (["methane", "hexane"], 300.0, 0.8, 0.98), (["methane", "hexane"], 300.0, 0.8, 0.50), (["methane", "butane"], 250.0, 0.5, 0.98),
+            (["methane", "hexane"], 250.0, 0.8, 0.95), (["methane", "hexane"], 250.0, 0.7, 0.98), (["methane", "hexane"], 300.0, 0.7, 0.95),
+            (["methane", "butane"], 250.0, 0.7, 0.95), (["methane", "pentane"], 275.0, 0.8, 0.98), (["methane", "pentane"], 275.0, 0.8, 0.92),
+            (["ethane", "heptane"], 350.0, 0.8, 0.98), (["ethane", "heptane"], 350.0, 0.7, 0.95), (["methane", "propane"], 230.0, 0.6, 0.98),
+        ];
+        for (pair, t, z1, f) in asym.iter().take(if full { 15 } else { 9 }) {
             let eos = pcsaft(&pair[..]);
             let nm = format!("pcsaft:{}|{}", pair[0], pair[1]);
-            systems.push(format!("{nm}@{t}K"));
-            let mut zs = vec![0.8, 0.5];
-            for _ in 0..(if full { 4 } else { 1 }) {
-                zs.push(rng.range(0.3, 0.85));
+            let tag = format!("{nm}@{t}K");
+            if !systems.contains(&tag) {
+                systems.push(tag);
             }
-            for z1 in zs {
-                let mut fr = vec![0.98, 0.9, 0.5];
-                for _ in 0..(if full { 3 } else { 1 }) {
-                    fr.push(rng.range(0.85, 0.99));
-                }
-                for f in fr {
-                    let sp = PointSpec { t: *t, x: vec![z1, 1.0 - z1], u_in: 0.5, f_liq: 1.0 + MARGIN, f_vap: 1.0 - MARGIN, opts: 0, frac: Some(f) };
-                    mixture_point(&eos, &nm, &sp, &mut tally, &mut goals, &mut failures, &mut counts, &mut keep_pc);
-                }
-            }
+            let sp = PointSpec { t: *t, x: vec![*z1, 1.0 - z1], u_in: 0.5, f_liq: 1.0 + MARGIN, f_vap: 1.0 - MARGIN, opts: 0, frac: Some(*f) };
+            mixture_point(&eos, &nm, &sp, &mut tally, &mut goals, &mut failures, &mut counts, &mut keep_pc);
         }
     }
     // ternaries (PC-SAFT) and Peng-Robinson binary / ternary
@@ -1048,7 +1046,7 @@ fn main() {
             "failures": failures,
             "known_points": known_out,
             "trial_phases_recomputed_in_f64": n_tpd_total,
-            "solver_option_sets": "0 default; 1 tol 1e-8/400; 2 tol 1e-5; 3 max_iter 300; 4 tol 1e-10/1000; 5 tol 1e-12/1000; 6 tol 1e-4; 7 tol 1e-7/200 — every converged bubble/dew/flash phase is analysed with sets 0,1,4,5,2 and the set drawn for the point (NotConverged under sets 4,5 is counted, not judged)",
+            "solver_option_sets": "0 default; 1 tol 1e-8/400; 2 tol 1e-5; 3 max_iter 300; 4 tol 1e-10/1000; 5 tol 1e-12/1000; 6 tol 1e-9/600; 7 tol 1e-7/200 — every converged bubble/dew/flash phase is analysed with sets 0,1,4,5,2 and the set drawn for the point (NotConverged under sets 4,5 is counted, not judged)",
             "ranges": "asymmetric methane/ethane + alkane binaries at 90-98 % of the way from dew to bubble pressure; PC-SAFT hydrocarbon binaries of gross2001.json with T_c ratio < 1.5 (+ ternaries, Peng-Robinson 2/3 components), T in [0.65,0.9] of the lowest T_c, x in [0.05,0.95]; p inside [1.02 p_dew, 0.98 p_bubble], p outside >= 1.02 p_bubble or <= 0.98 p_dew; pure: density grid, inside [1.02 rho_V, 0.98 rho_L]",
         }
     });
